@@ -35,13 +35,19 @@ class Hist:
                 if kind == 'bytes':
                     nm = doc.addPictureFromString(data, 'image/png'); mt = 'image/png'
                 elif kind == 'named':
-                    nm = doc.addPicture('Pictures/named_%d_%d.gif' % (dno, k), 'image/gif', data); mt = 'image/gif'
+                    nm = doc.addPicture(rng.choice(['Pictures/logo.gif', 'Pictures/named_%d.gif' % k]) if ('Pictures/logo.gif' not in doc.Pictures) else 'Pictures/named_%d.gif' % k, 'image/gif', data); mt = 'image/gif'
                 else:
                     fn = os.path.join(scratch, 'pic%d.jpg' % k); open(fn, 'wb').write(data)
                     nm = doc.addPictureFromFile(fn) if rng.random() < 0.5 else doc.addPicture(fn); mt = 'image/jpeg'
                 self.picrefs.append((doc, nm, data, mt))
             if rng.random() < 0.4:
                 cs = config.ConfigItemSet(name='s'); cs.addElement(config.ConfigItem(name='n', type='string', text='v')); doc.settings.addElement(cs)
+        if rng.random() < 0.35:
+            # the same explicit picture name in several documents of the tree (each has its own Pictures folder)
+            for dno, doc in enumerate(docs):
+                if 'Pictures/logo.gif' not in doc.Pictures and rng.random() < 0.8:
+                    data = b'LOGO-of-doc-%d' % dno
+                    self.picrefs.append((doc, doc.addPicture('Pictures/logo.gif', 'image/gif', data), data, 'image/gif'))
         self.thumb = None
         if rng.random() < 0.3:
             self.thumb = bytes([rng.randrange(256) for _ in range(20)]); self.root.addThumbnail(self.thumb)
